@@ -8,6 +8,7 @@ pub mod c12;
 pub mod c14;
 pub mod c15;
 pub mod c16;
+pub mod c18;
 pub mod simutil;
 
 use crate::common::*;
@@ -25,6 +26,7 @@ pub fn run_property(ctx: &mut Ctx) -> bool {
         "C14" => c14::run(ctx),
         "C15" => c15::run(ctx),
         "C16" => c16::run(ctx),
+        "C18" => c18::run(ctx),
         _ => return false,
     }
     true
@@ -69,6 +71,7 @@ pub fn replay(body: &Value) -> i32 {
         "decode" => replay_part(&c06::DecPart, body),
         "crc" => replay_part(&c15::CrcPart, body),
         "udp" => replay_part(&c16::UdpPart, body),
+        "unack" => replay_part(&c18::C18Part, body),
         "roundtrip" => replay_part(&c05::RtPart, body),
         "checksum" => replay_part(&c14::CkPart, body),
         "confinement" => replay_part(&c12::FsPart, body),
